@@ -169,6 +169,8 @@ impl<F: Float> Transformer<Kernel<F>, DatasetBase<Kernel<F>, Vec<usize>>>
 
         // flatten resulting clusters and reverse index
         let mut tmp = vec![0; num_observations];
+        let mut clusters = clusters.into_iter().collect::<Vec<_>>();
+        clusters.sort_unstable_by_key(|(key, _)| *key);
         for (i, (_, ids)) in clusters.into_iter().enumerate() {
             for id in ids {
                 tmp[id] = i;
